@@ -14,7 +14,12 @@ def _run_chunk(exe, path, env, timeout):
         return "timeout", (e.stdout or b"").decode("ascii", "replace"), (e.stderr or b"").decode("utf-8", "replace")
 
 
-def run_cases(ctx, flavour, lines, chunk=500, timeout=900, tz="UTC", jobs=None):
+LAGS = [0, 2500, 0, 61000, 0, 90000000, 0, 999]
+
+
+def run_cases(ctx, flavour, lines, chunk=500, timeout=900, tz="UTC", jobs=None, lags=None):
+    """lags: per-chunk delivery lag (ms of virtual wall-clock time that pass between the construction of a message and its
+    formatting; VERIF_LAG_MS in the driver) - cycled over the chunks; None = no lag anywhere."""
     """lines: list of case lines (each with its own id as 2nd token).
     Returns (results: dict id -> list of tokens after the id, crashes: list of (id, line, kind, stderr))."""
     exe = build.driver(flavour, "drv_fmt")
@@ -26,7 +31,8 @@ def run_cases(ctx, flavour, lines, chunk=500, timeout=900, tz="UTC", jobs=None):
         with open(path, "w") as f:
             f.write("\n".join(ch) + "\n")
         paths.append(path)
-    res = core.run_parallel([[exe, p] for p in paths], env, jobs=jobs, timeout=timeout)
+    lag_of = (lambda n: lags[n % len(lags)]) if lags else (lambda n: 0)
+    res = core.run_parallel([["env", "VERIF_LAG_MS=%d" % lag_of(n), exe, p] for n, p in enumerate(paths)], env, jobs=jobs, timeout=timeout)
     results = {}
     crashes = []
     skipped = set()
@@ -44,7 +50,7 @@ def run_cases(ctx, flavour, lines, chunk=500, timeout=900, tz="UTC", jobs=None):
             path = os.path.join(ctx.tmp, "retry-%s-%d.txt" % (flavour, n))
             with open(path, "w") as f:
                 f.write("\n".join(pending) + "\n")
-            env2 = dict(env, VERIF_FLUSH="1")
+            env2 = dict(env, VERIF_FLUSH="1", VERIF_LAG_MS=str(lag_of(n)))
             rc2, out2, err2 = _run_chunk(exe, path, env2, timeout)
             got = {}
             _parse(out2, got)
